@@ -595,6 +595,7 @@ INFEASIBLE = {
     'gc_k_param_type_capacity': 'text-keyed derived decoder through cbor-smol: no result within the limits; unit dep_container_decoders proves the String<N> / Vec<T, N> decoders',
     'gc_k_roundtrip_small': 'encode + decode through cbor-smol in one harness: CBMC out of memory (24 GB)',
     'c02_k_get_next_assertion_like_get_assertion': 'two full get_assertion::Response encodings in one harness: no result within the limits; unit c17_response_serialize proves both arms call the same encoder on the same value',
+    'c19_k_arbitrary_str_straddling_char': 'written for seed C19-5 (three concrete inputs with a character straddling the capacity) but not calibrated before the end of the last session: more than 6 minutes under load without a verdict on either tree, so it is run by no check; the Verus unit c19_arbitrary_helpers proves the statement for the current body, and the symbolic harness c19_k_arbitrary_str_2 (384 s on the unchanged tree) runs in the thorough tier',
     'c02_k_filtered_params_serialize': 'real cbor-smol serializer in the loop: CBMC out of memory (24 GB); the counting mock Serializer harness c03_k_filtered_params_serialize_length covers the hand-written impl',
 }
 for _p in PROPS.values():
